@@ -127,6 +127,14 @@ Theorem C07_family_total : forall (k : nat) (members : list (list zread * list Z
 Proof. exact family_total. Qed.
 Print Assumptions C07_family_total.
 
+(* The harness evaluates cap and maximality on large read sets with the span counts tabulated once per
+   case; these evaluators are the specification predicates of the theorems above. *)
+Theorem C07_fast_evaluators_agree : forall reads n k selected,
+  cap_ok_fast reads n k selected = cap_ok reads n k selected /\
+  maximal_ok_fast reads n k selected = maximal_ok reads n k selected.
+Proof. exact fast_evaluators_agree. Qed.
+Print Assumptions C07_fast_evaluators_agree.
+
 (* ---- non-vacuity ---------------------------------------------------------------------------- *)
 
 (* tests/test_readselect.py::test_selection (8 reads over 6 variants), k = 2 without bridging: a legal
